@@ -327,13 +327,13 @@ def run_case(case, ctx):
         cl.add("noworkspace_start")
     template, init_docs = build(ctx, case)
     evaluations = 0
-    P = 2
+    P = 3 if case.get("preemptions") == 3 else 2
     if case.get("mode") == "bounded" and nact == 2:
         cl.add("bounded_schedule")
         # DFS over schedules with at most P pre-emptions, pre-empting only before workspace steps
         stack = [([], 0)]
         seen = 0
-        cap = 120 if ctx.tier == "quick" else 3000
+        cap = int(case.get("cap", 0)) or (120 if ctx.tier == "quick" else 3000)
         while stack and seen < cap and not ctx.out_of_time():
             prefix, used = stack.pop()
 
@@ -408,6 +408,9 @@ CONSTRUCTED = [
     {"start": "populated", "mode": "bounded", "schedules": [[]], "actors": [[{"o": "write", "j": 0, "k": "x", "v": [1, 2], "whole": True}, {"o": "write", "j": 0, "k": "y", "v": 1, "whole": True}], [{"o": "read", "j": 0}, {"o": "read", "j": 0}]]},
     {"start": "populated", "mode": "bounded", "schedules": [[]], "actors": [[{"o": "write", "j": 0, "k": "x", "v": "s"}, {"o": "init", "j": 2}], [{"o": "init", "j": 2}, {"o": "write", "j": 1, "k": "x", "v": {"n": 1}}, {"o": "read", "j": 0}]]},
     {"start": "noworkspace", "mode": "bounded", "schedules": [[]], "actors": [[{"o": "init", "j": 0}, {"o": "len"}], [{"o": "init", "j": 1}, {"o": "len"}]]},
+    # two processes initialise the same new job: every schedule with up to THREE pre-emptions
+    {"start": "empty", "mode": "bounded", "preemptions": 3, "cap": 6000, "schedules": [[]], "actors": [[{"o": "init", "j": 0}], [{"o": "init", "j": 0}]]},
+    {"start": "noworkspace", "mode": "bounded", "preemptions": 3, "cap": 6000, "schedules": [[]], "actors": [[{"o": "init", "j": 2}], [{"o": "read", "j": 2}]]},
     # one long-lived Project object counts repeatedly while another process creates jobs
     {"start": "empty", "mode": "bounded", "schedules": [[]], "actors": [[{"o": "len"}, {"o": "len"}, {"o": "len"}], [{"o": "init", "j": 0}]]},
     {"start": "populated", "mode": "bounded", "schedules": [[]], "actors": [[{"o": "len"}, {"o": "len"}], [{"o": "init", "j": 2}, {"o": "len"}]]},
